@@ -62,6 +62,33 @@ def pool_map(fn, items):
         return p.map(fn, items, chunksize=1)
 
 
+FUNC_DEADLINE_S = int(os.environ.get("VERIF_FUNC_DEADLINE", "420"))
+
+
+def pool_map_deadline(fn, items, deadline_s, on_timeout):
+    """pool_map with a wall-clock limit per job: a job that is still running `deadline_s` seconds after the
+    jobs were handed out is abandoned (its worker is killed with the pool) and reported by `on_timeout(job)`.
+    A path explosion or a solver call that ignores its budget must not hang a check."""
+    if not items:
+        return []
+    ctx = mp.get_context("fork")
+    pool = ctx.Pool(min(NPROC, len(items)))
+    t0 = time.time()
+    try:
+        pending = [pool.apply_async(fn, (it,)) for it in items]
+        outs = []
+        for it, ar in zip(items, pending):
+            left = max(1.0, deadline_s - (time.time() - t0)) if len(items) <= NPROC else deadline_s
+            try:
+                outs.append(ar.get(timeout=left))
+            except mp.TimeoutError:
+                outs.append(on_timeout(it))
+        return outs
+    finally:
+        pool.terminate()
+        pool.join()
+
+
 def run_pyvc(rep: Report, keys, native_limit=150):
     """Verify each function against its contract (deductive) and run the native
     small-scope check of the same contract (bounded stand-in / contract sanity)."""
@@ -70,7 +97,10 @@ def run_pyvc(rep: Report, keys, native_limit=150):
     keys = [k for k in keys if not S.CONTRACTS[k].assumed]
     # few functions: spend the idle cores inside each function (obligations discharged in forked children)
     os.environ["VERIF_INNER_PAR"] = str(max(1, NPROC // max(1, len(keys))))
-    outs = pool_map(_verify_one, [(k, prefix) for k in keys])
+    outs = pool_map_deadline(_verify_one, [(k, prefix) for k in keys], FUNC_DEADLINE_S,
+                             lambda job: ([Result(prefix + job[0].split(":")[1], UNDECIDED, function=job[0], backend="pyvc",
+                                                  output="verification of this function exceeded %d s of wall time and was abandoned (no verdict)" % FUNC_DEADLINE_S)],
+                                          {"key": job[0], "source": "", "assumed": [], "used": [], "paths": 0, "time": FUNC_DEADLINE_S}))
     for results, meta in outs:
         rep.extend(results)
         rep.function(meta["key"], meta["source"])
